@@ -5,7 +5,7 @@
 From Coq Require ZArith List.
 From Verif Require Base Coding.
 From mathcomp Require Import all_ssreflect all_algebra.
-From Verif Require Import Contrast.
+From Verif Require Import Contrast Tensor.
 From Verif Require Tie.
 
 Set Implicit Arguments.
@@ -74,6 +74,29 @@ Theorem C13_entry_bridge (F : fieldType) (n r i j : nat)
     & ZtoF F (Coding.sum_entry r i j) = sumc F (Ordinal rn) (Ordinal ilt) (Ordinal jlt)].
 Proof. exact: entry_bridge. Qed.
 
+(* ... and for WHOLE designs on complete-factorial data (LinAlg/Tensor.v): two designs for the same
+   down-closed family of factor sets -- any valid contrast family per factor (treatment with any
+   reference, sum with any omitted level, mixed), any codings that partition it -- have the same
+   column space, both of full column rank, with the same number of columns *)
+Theorem C13_coding_never_changes_the_column_space (F : fieldType) (I : finType) (n : I -> nat)
+        (C C' : forall f : I, 'M[F]_((n f).+1, n f)) :
+  valid_contrasts C -> valid_contrasts C' ->
+  forall (cs cs' : seq (coding I)) (U : {set {set I}}),
+    down_closed U -> all (@wf_coding I) cs -> all (@wf_coding I) cs' ->
+    partitions cs U -> partitions cs' U ->
+    [/\ (<<design C cs>> = <<design C' cs'>>)%VS, free (design C cs), free (design C' cs')
+      & size (design C cs) = size (design C' cs')].
+Proof. exact: design_colspace_indep. Qed.
+
+Theorem C13_treatment_is_valid (F : fieldType) (I : finType) (n : I -> nat) (r : forall f : I, 'I_(n f).+1) :
+  valid_contrasts (fun f => treat F (r f)).
+Proof. exact: treat_valid. Qed.
+
+Theorem C13_sum_is_valid (F : numFieldType) (I : finType) (n : I -> nat) (o : forall f : I, 'I_(n f).+1) :
+  valid_contrasts (fun f => sumc F (o f)).
+Proof. exact: sum_valid_num. Qed.
+
+Print Assumptions C13_coding_never_changes_the_column_space.
 Print Assumptions C13_treat_full_rank.
 Print Assumptions C13_sum_full_rank.
 Print Assumptions C13_treatment_sum_same_space.
